@@ -1535,7 +1535,7 @@ func (p *Parser) parseHaving(stmt *SelectStatement) error {
 		}
 
 		tok := p.lexer.NextToken()
-		if tok.Type == TokenLIMIT || tok.Type == TokenEOF || tok.Type == TokenWITH {
+		if tok.Type == TokenLIMIT || tok.Type == TokenEOF || tok.Type == TokenWITH || tok.Type == TokenOrder {
 			break
 		}
 
